@@ -149,3 +149,7 @@ func checkC02(tier string) int {
 	runMicros(rep, specs, secs, false)
 	return rep.Finish()
 }
+
+func runCaseMore(kind string, spec json.RawMessage) vx.Out {
+	return vx.Out{Obs: "unknown case kind " + kind, Viol: []vx.Found{{Sig: "INFRA unknown case kind " + kind}}}
+}
